@@ -66,12 +66,15 @@ def one_case(out: Outcome, rng, cls: str, p: dict, pre: list, post: list, runner
         ta, tb = np.asarray(a.det.log_r, dtype=float), np.asarray(b.det.log_r, dtype=float)
         if ta.shape != tb.shape or not np.array_equal(ta, tb, equal_nan=True):
             out.violation(f"BOCD: the run-length table after reset() + {len(post)} updates (shape {ta.shape}) differs from a fresh instance's (shape {tb.shape})", rep)
+    # KSWIN is compared from equal states of NumPy's GLOBAL generator; if the detector does not draw from it (checked by the runners), the two instances
+    # are not comparable that way and a difference is a broken assumption of this check, not a verdict
+    report = out.violation if (cls != "KSWIN" or (a.tape_ok and b.tape_ok)) else out.mismatch
     for j, (x, y) in enumerate(zip(a.obs[k0:], b.obs)):
         if x is None or y is None:
             continue
         if x != y:
             what = "reads differently right after reset()" if j == 0 else f"output differs from a fresh instance at post-reset update {j}"
-            out.violation(f"{cls}: {what}: reset {x} vs fresh {y}", {**rep, "post_index": j})
+            report(f"{cls}: {what}: reset {x} vs fresh {y}", {**rep, "post_index": j})
             break
     out.case({"class": cls, "params": p, "pre_len": len(pre), "post_len": len(post), "at_reset": at_reset},
              nontrivial=len(pre) > 0)
@@ -89,7 +92,8 @@ def one_case(out: Outcome, rng, cls: str, p: dict, pre: list, post: list, runner
         feed(cls, f, xp, state)
         diff = next((j for j, (x, y) in enumerate(zip(c.obs[kc:], f.obs)) if x != y), None)
         if diff is not None:
-            out.violation(f"{cls}: output differs from a fresh instance at post-reset update {diff} (found by the search directed at a field that survives reset())",
+            (out.violation if (cls != "KSWIN" or (c.tape_ok and f.tape_ok)) else out.mismatch)(
+                f"{cls}: output differs from a fresh instance at post-reset update {diff} (found by the search directed at a field that survives reset())",
                           {**rep, "post": xp, "post_index": diff})
             break
 
